@@ -814,3 +814,20 @@ func (m *FakeMaster) KillsFor(taskID string) []CallRec {
 }
 
 func hasPrefix(s, p string) bool { return strings.HasPrefix(s, p) }
+
+// AnnounceBasicTaskTerminated makes a (hook / basic) task announce its termination like the executor does:
+// a BASIC_TASK_TERMINATED device event followed by the final status update.
+func AnnounceBasicTaskTerminated(m *FakeMaster, taskID string, exitCode int, voluntary bool) {
+	final := mesos.TASK_FINISHED
+	if exitCode != 0 {
+		final = mesos.TASK_FAILED
+	}
+	m.SendDeviceEvent(taskID, pbc.DeviceEventType_BASIC_TASK_TERMINATED, func(ev event.DeviceEvent) {
+		if btt, ok := ev.(*event.BasicTaskTerminated); ok {
+			btt.ExitCode = exitCode
+			btt.VoluntaryTermination = voluntary
+			btt.FinalMesosState = final
+		}
+	})
+	m.SendUpdate(taskID, final, nil, mesos.SOURCE_EXECUTOR)
+}
